@@ -474,4 +474,448 @@ theorem processedOk_model (t : List Leaf) (q : Query) (vars : List (Str × Str))
       · simp [hv]
 
 
+
+/-! ## histories on one service -/
+
+/-- every cached template is what compiling its path against the CURRENT backend would give -/
+def CacheCurrent (s : Svc) : Prop := ∀ e ∈ s.cache, compileP s.tree e.1 = .ok e.2
+
+theorem procStep_tree (s : Svc) (q : Query) (vars : List (Str × Str)) : (procStep s q vars).1.tree = s.tree := by
+  unfold procStep
+  split
+  · rfl
+  · split <;> rfl
+
+/-- the state a request leaves behind does not depend on the variables it supplied -/
+theorem procStep_state_vars (s : Svc) (q : Query) (vars vars' : List (Str × Str)) :
+    (procStep s q vars).1 = (procStep s q vars').1 := by
+  unfold procStep
+  split
+  · rfl
+  · split <;> rfl
+
+theorem procStep_fresh (s : Svc) (h : CacheCurrent s) (q : Query) (vars : List (Str × Str)) :
+    (procStep s q vars).2 = processT s.tree q vars ∧ CacheCurrent (procStep s q vars).1 := by
+  unfold processT
+  unfold procStep
+  cases hf : s.cache.find? (fun e => e.1 == print q) with
+  | some e =>
+    have hm : e ∈ s.cache := List.mem_of_find?_eq_some hf
+    have hk : e.1 = print q := by simpa using List.find?_some hf
+    have hc := h e hm
+    rw [hk] at hc
+    simp [freshSvc, hc, h]
+  | none =>
+    simp only [freshSvc, List.find?_nil]
+    cases hc : compileP s.tree (print q) with
+    | ok segs =>
+      refine ⟨rfl, ?_⟩
+      intro e he
+      simp only [List.mem_cons] at he
+      rcases he with rfl | he
+      · exact hc
+      · exact h e he
+    | err c => exact ⟨rfl, h⟩
+    | unmodelled => exact ⟨rfl, h⟩
+
+theorem after_sameButVars (s : Svc) (ops ops' : List Op) (h : sameButVars ops ops' = true) : after s ops = after s ops' := by
+  induction ops generalizing s ops' with
+  | nil => cases ops' <;> simp_all [sameButVars, after]
+  | cons op r ih =>
+    cases ops' with
+    | nil => cases op <;> simp [sameButVars] at h
+    | cons op' r' =>
+      cases op <;> cases op' <;> simp only [sameButVars, Bool.and_eq_true, beq_iff_eq, Bool.false_eq_true] at h
+      case proc.proc q v q' v' =>
+        obtain ⟨rfl, hr⟩ := h
+        simp only [after, step]
+        rw [procStep_state_vars s q v v']
+        exact ih _ _ hr
+      case rproc.rproc q v q' v' =>
+        obtain ⟨rfl, hr⟩ := h
+        simp only [after, step]
+        cases resolve (yamlExists s.tree) q with
+        | none => exact ih _ _ hr
+        | some rq =>
+          simp only
+          rw [procStep_state_vars s rq v v']
+          exact ih _ _ hr
+      case get.get q q' =>
+        obtain ⟨rfl, hr⟩ := h
+        simp only [after, step]
+        exact ih _ _ hr
+      case inval.inval =>
+        simp only [after, step]
+        exact ih _ _ h
+      case put.put k c k' c' =>
+        obtain ⟨⟨rfl, rfl⟩, hr⟩ := h
+        simp only [after, step]
+        exact ih _ _ hr
+      case del.del k k' =>
+        obtain ⟨rfl, hr⟩ := h
+        simp only [after, step]
+        exact ih _ _ hr
+
+theorem run_append_singleton (s : Svc) (pre : List Op) (op : Op) :
+    run s (pre ++ [op]) = run s pre ++ [(step (after s pre) op).2] := by
+  induction pre generalizing s with
+  | nil => simp [run, after]
+  | cons o r ih => simp [run, after, ih]
+
+theorem run_eq_runFresh (s : Svc) (seen dirty : Bool) (hs : seen = false → s.cache = [])
+    (hd : dirty = false → CacheCurrent s) (ops : List Op) (h : noStaleFrom seen dirty ops = true) :
+    run s ops = runFresh s.tree ops := by
+  induction ops generalizing s seen dirty with
+  | nil => rfl
+  | cons op r ih =>
+    cases op with
+    | proc q v =>
+      simp only [noStaleFrom, Bool.and_eq_true, Bool.not_eq_true'] at h
+      obtain ⟨hdirty, hr⟩ := h
+      have hf := procStep_fresh s (hd hdirty) q v
+      simp only [run, runFresh, step]
+      rw [hf.1, procStep_tree]
+      have := ih (procStep s q v).1 true dirty (by simp) (fun _ => hf.2) hr
+      rw [procStep_tree] at this
+      simp only [processT] at *
+      rw [this]
+      simp [freshSvc]
+    | rproc q v =>
+      simp only [noStaleFrom, Bool.and_eq_true, Bool.not_eq_true'] at h
+      obtain ⟨hdirty, hr⟩ := h
+      simp only [run, runFresh, step, freshSvc]
+      cases hres : resolve (yamlExists s.tree) q with
+      | none =>
+        simp only
+        have := ih s true dirty (by simp) hd hr
+        rw [this]
+      | some rq =>
+        have hf := procStep_fresh s (hd hdirty) rq v
+        simp only
+        have := ih (procStep s rq v).1 true dirty (by simp) (fun _ => hf.2) hr
+        rw [procStep_tree] at this
+        rw [hf.1, this, procStep_tree]
+        simp [processT, freshSvc]
+    | get q =>
+      simp only [noStaleFrom] at h
+      simp only [run, runFresh, step, freshSvc]
+      rw [ih s seen dirty hs hd h]
+    | inval =>
+      simp only [noStaleFrom] at h
+      simp only [run, runFresh, step, freshSvc]
+      have := ih { s with cache := [] } false false (fun _ => rfl) (fun _ e he => by simp at he) h
+      rw [this]
+    | put k c =>
+      simp only [noStaleFrom] at h
+      simp only [run, runFresh, step, freshSvc]
+      have := ih { s with tree := putLeaf s.tree k c } seen (dirty || seen) hs
+        (fun hx => by
+          have : seen = false := by cases dirty <;> cases seen <;> simp_all
+          intro e he
+          rw [hs this] at he
+          simp at he) h
+      rw [this]
+    | del k =>
+      simp only [noStaleFrom] at h
+      simp only [run, runFresh, step, freshSvc]
+      have := ih { s with tree := delLeaf s.tree k } seen (dirty || seen) hs
+        (fun hx => by
+          have : seen = false := by cases dirty <;> cases seen <;> simp_all
+          intro e he
+          rw [hs this] at he
+          simp at he) h
+      rw [this]
+
+
+/-! ## a fresh service's answer, and the Spec on it -/
+
+theorem readFile_wf (t : List Leaf) (q : Query) (hq : wf q = true) : readFile t (print q) = yamlGet t (absRaw q) := by
+  unfold readFile
+  rw [parse_print q hq]
+  simp only [getComponent]
+  cases hg : yamlGet t (absRaw q) with
+  | none => cases yamlExists t (absRaw q) <;> simp
+  | some v => simp [yamlGet_exists t _ v hg]
+
+/-- for a well-formed query the template the service compiles is the entry the Spec links -/
+theorem compileP_wf (t : List Leaf) (q : Query) (hq : wf q = true) : compileP t (print q) = linkedEntry t q := by
+  unfold compileP linkedEntry linkPath
+  rw [readFile_wf t q hq]
+  cases yamlGet t (absRaw q) <;> rfl
+
+theorem processT_eq (t : List Leaf) (q : Query) (vars : List (Str × Str)) :
+    processT t q vars =
+      match compileP t (print q) with
+      | .ok segs => execT segs vars
+      | .err c => .err c
+      | .unmodelled => .unmodelled := by
+  unfold processT procStep freshSvc
+  simp only [List.find?_nil]
+  cases compileP t (print q) <;> rfl
+
+theorem templatedOk_processT (t : List Leaf) (q : Query) (vars : List (Str × Str)) (hq : wf q = true)
+    (hesc : reqEscapeFree t q vars = true) : templatedOk t q vars (processT t q vars) = true := by
+  rw [processT_eq, compileP_wf t q hq]
+  unfold templatedOk
+  unfold reqEscapeFree at hesc
+  cases hl : linkedEntry t q with
+  | unmodelled => rfl
+  | err c => rfl
+  | ok segs =>
+    simp only [hl] at hesc ⊢
+    unfold execT
+    by_cases hv : (bindings vars).all (fun kv => validIdent kv.1) = true
+    · simp only [hv, if_true]
+      have : renderSegs (fun n => escape (lookup (bindings vars) n)) segs
+           = renderSegs (fun n => lookup (bindings vars) n) segs := by
+        apply renderSegs_congr
+        intro n hn
+        exact escape_of_escapeFree _ (List.all_eq_true.mp hesc n hn)
+      simp [this]
+    · simp [hv]
+
+theorem seqOk_runFresh (t : List Leaf) (ops : List Op) (hwf : opsWf ops = true) (hesc : seqEscapeFree t ops = true) :
+    seqOk t ops ((runFresh t ops).map obsOfResp) = true := by
+  induction ops generalizing t with
+  | nil => rfl
+  | cons op r ih =>
+    cases op with
+    | proc q v =>
+      simp only [opsWf, seqEscapeFree, Bool.and_eq_true] at hwf hesc
+      simp only [runFresh, step, List.map_cons, obsOfResp, seqOk, Bool.and_eq_true]
+      rw [procStep_tree]
+      exact ⟨templatedOk_processT t q v hwf.1 hesc.1, ih t hwf.2 hesc.2⟩
+    | rproc q v =>
+      simp only [opsWf, seqEscapeFree, Bool.and_eq_true] at hwf hesc
+      have hr := resolutionOk_model (yamlExists t) q
+      simp only [runFresh, step, freshSvc]
+      cases hres : resolve (yamlExists t) q with
+      | none =>
+        simp only [hres] at hr
+        simp only [List.map_cons, obsOfResp, seqOk, Bool.and_eq_true]
+        exact ⟨⟨hr, by decide⟩, ih t hwf.2 hesc.2⟩
+      | some rq =>
+        simp only [hres] at hr hesc
+        simp only [List.map_cons, obsOfResp, seqOk, Bool.and_eq_true]
+        rw [procStep_tree]
+        exact ⟨⟨hr, templatedOk_processT t rq v (resolve_wf _ q rq hwf.1 hres) hesc.1⟩, ih t hwf.2 hesc.2⟩
+    | get q =>
+      simp only [opsWf, seqEscapeFree] at hwf hesc
+      simp only [runFresh, step, freshSvc, List.map_cons, obsOfResp, seqOk, Bool.and_eq_true]
+      exact ⟨payloadOk_getComponent t q, ih t hwf hesc⟩
+    | inval =>
+      simp only [opsWf, seqEscapeFree] at hwf hesc
+      simp only [runFresh, step, freshSvc, List.map_cons, obsOfResp, seqOk]
+      exact ih t hwf hesc
+    | put k c =>
+      simp only [opsWf, seqEscapeFree] at hwf hesc
+      simp only [runFresh, step, freshSvc, List.map_cons, obsOfResp, seqOk]
+      exact ih _ hwf hesc
+    | del k =>
+      simp only [opsWf, seqEscapeFree] at hwf hesc
+      simp only [runFresh, step, freshSvc, List.map_cons, obsOfResp, seqOk]
+      exact ih _ hwf hesc
+
+/-! ## the plain fragment inside the extended one -/
+
+def embMode : Mode → TMode
+  | .text => .text
+  | .pre => .vpre
+  | .name acc => .vname acc
+  | .post n => .vpost n
+
+theorem map_consChar (c : Char) (segs : List Seg) : (consChar c segs).map Tok.seg = consTok c (segs.map Tok.seg) := by
+  unfold consChar consTok
+  cases segs with
+  | nil => rfl
+  | cons x r => cases x <;> rfl
+
+theorem varNames_consChar (c : Char) (segs : List Seg) : varNames (consChar c segs) = varNames segs := by
+  unfold consChar
+  cases segs with
+  | nil => rfl
+  | cons x r => cases x <;> rfl
+
+
+theorem scan_vpre (c : Char) (rest : Str) : scan .vpre (c :: rest) =
+    if isTagSpace c then scan .vpre rest else if isIdentStart c then scan (.vname [c]) rest else none := by
+  rw [scan.eq_def]
+
+theorem scan_vname_ident (acc : Str) (c : Char) (rest : Str) (h : isIdentChar c = true) :
+    scan (.vname acc) (c :: rest) = scan (.vname (c :: acc)) rest := by
+  rw [scan.eq_def]; simp [h]
+
+theorem scan_vname_space (acc : Str) (c : Char) (rest : Str) (h : ¬ isIdentChar c = true) (h2 : isTagSpace c = true) :
+    scan (.vname acc) (c :: rest) = scan (.vpost acc.reverse) rest := by
+  rw [scan.eq_def]; simp [h, h2]
+
+theorem scan_vname_close (acc : Str) (c : Char) (rest : Str) (h : ¬ isIdentChar c = true) (h2 : ¬ isTagSpace c = true)
+    (h3 : (c == '}') = true) (hp : plainNameT acc.reverse = true) :
+    scan (.vname acc) (c :: '}' :: rest) = (scan .text rest).map (Tok.seg (.var acc.reverse) :: ·) := by
+  rw [scan.eq_def]; simp [h, h2, h3, hp]
+
+theorem scan_vpost_space (n : Str) (c : Char) (rest : Str) (h2 : isTagSpace c = true) :
+    scan (.vpost n) (c :: rest) = scan (.vpost n) rest := by
+  rw [scan.eq_def]; simp [h2]
+
+theorem scan_vpost_close (n : Str) (c : Char) (rest : Str) (h2 : ¬ isTagSpace c = true)
+    (h3 : (c == '}') = true) (hp : plainNameT n = true) :
+    scan (.vpost n) (c :: '}' :: rest) = (scan .text rest).map (Tok.seg (.var n) :: ·) := by
+  rw [scan.eq_def]; simp [h2, h3, hp]
+
+theorem scan_of_lex (m : Mode) (s : Str) (segs : List Seg) (h : lex m s = some segs)
+    (hb : blockKw ∉ varNames segs) : scan (embMode m) s = some (segs.map Tok.seg) := by
+  fun_induction lex m s generalizing segs
+  all_goals (try (simp at h; done))
+  case case1 => simp at h; subst h; simp [embMode, scan]
+  case case2 rest ih => simp only [embMode, scan]; exact ih segs h hb
+  case case5 c rest h1 h2 h3 ih =>
+    cases hl : lex Mode.text rest with
+    | none => simp [hl] at h
+    | some segs' =>
+      simp only [hl, Option.map_some, Option.some.injEq] at h
+      subst h
+      rw [varNames_consChar] at hb
+      have := ih segs' hl hb
+      simp only [embMode] at this ⊢
+      rw [scan.eq_5 c rest h1 h2 h3, this]
+      simp [map_consChar]
+  case case7 c rest hsp ih =>
+    have := ih segs h hb
+    simp only [embMode] at this ⊢
+    rw [scan_vpre]; simp [hsp, this]
+  case case8 c rest hsp hid ih =>
+    have := ih segs h hb
+    simp only [embMode] at this ⊢
+    rw [scan_vpre]; simp [hsp, hid, this]
+  case case11 acc c rest hid ih =>
+    have := ih segs h hb
+    simp only [embMode] at this ⊢
+    rw [scan_vname_ident _ _ _ hid, this]
+  case case12 acc c rest hid hsp ih =>
+    have := ih segs h hb
+    simp only [embMode] at this ⊢
+    rw [scan_vname_space _ _ _ hid hsp, this]
+  case case13 acc c hid hsp hc rest' hp ih =>
+    cases hl : lex Mode.text rest' with
+    | none => simp [hl] at h
+    | some segs' =>
+      simp only [hl, Option.map_some, Option.some.injEq] at h
+      subst h
+      simp only [varNames, List.mem_cons, not_or] at hb
+      have := ih segs' hl hb.2
+      simp only [embMode] at this ⊢
+      have hpt : plainNameT acc.reverse = true := by
+        simp only [plainNameT, hp, Bool.true_and, bne_iff_ne, ne_eq]
+        exact fun e => hb.1 e.symm
+      rw [scan_vname_close _ _ _ hid hsp hc hpt, this]
+      simp
+  case case18 n c rest hsp ih =>
+    have := ih segs h hb
+    simp only [embMode] at this ⊢
+    rw [scan_vpost_space _ _ _ hsp, this]
+  case case19 n c hsp hc rest' hp ih =>
+    cases hl : lex Mode.text rest' with
+    | none => simp [hl] at h
+    | some segs' =>
+      simp only [hl, Option.map_some, Option.some.injEq] at h
+      subst h
+      simp only [varNames, List.mem_cons, not_or] at hb
+      have := ih segs' hl hb.2
+      simp only [embMode] at this ⊢
+      have hpt : plainNameT n = true := by
+        simp only [plainNameT, hp, Bool.true_and, bne_iff_ne, ne_eq]
+        exact fun e => hb.1 e.symm
+      rw [scan_vpost_close _ _ _ hsp hc hpt, this]
+      simp
+
+
+def plainItems (segs : List Seg) : List Item := segs.map fun s => Item.b (.seg s)
+
+theorem group_plain (segs : List Seg) : group none (segs.map Tok.seg) = some (plainItems segs) := by
+  induction segs with
+  | nil => rfl
+  | cons x r ih => simp [group, ih, plainItems]
+
+theorem extCount_plain (segs : List Seg) : extCount (plainItems segs) = 0 := by
+  induction segs with
+  | nil => rfl
+  | cons x r ih => simpa [plainItems, extCount] using ih
+
+theorem blockNames_plain (segs : List Seg) : blockNames (plainItems segs) = [] := by
+  induction segs with
+  | nil => rfl
+  | cons x r ih => simpa [plainItems, blockNames] using ih
+
+theorem itemsOk_plain (segs : List Seg) : itemsOk (plainItems segs) = true := by
+  simp [itemsOk, extCount_plain, blockNames_plain, distinct]
+
+theorem resolveItems_plain (rec : Str → LinkRes (List RNode)) (base : Str) (segs : List Seg) :
+    resolveItems rec base (plainItems segs) = .ok ⟨none, segs.map RNode.seg⟩ := by
+  induction segs with
+  | nil => rfl
+  | cons x r ih =>
+    simp only [plainItems, List.map_cons, resolveItems] at ih ⊢
+    rw [ih]; rfl
+
+theorem flatten_map_seg (segs : List Seg) : flatten (segs.map RNode.seg) = segs := by
+  induction segs with
+  | nil => rfl
+  | cons x r ih => simp [flatten, ih]
+
+/-- content of the plain `{{ name }}` fragment links to itself, whatever the backend holds -/
+theorem linkContent_plain (rec : Str → LinkRes (List RNode)) (base content : Str) (segs : List Seg)
+    (hl : lexTemplate content = some segs) (hb : blockKw ∉ varNames segs) :
+    linkContent rec base content = .ok (segs.map RNode.seg) := by
+  unfold linkContent parseItems
+  have := scan_of_lex .text content segs hl hb
+  simp only [embMode] at this
+  rw [this]
+  simp only [group_plain, itemsOk_plain, if_true, resolveItems_plain]
+
+/-- on an entry of the plain fragment a fresh service answers what the single-request model answers -/
+theorem processT_plain (t : List Leaf) (q : Query) (vars : List (Str × Str)) (hq : wf q = true)
+    (content : Str) (segs : List Seg) (hg : yamlGet t (absRaw q) = some content)
+    (hl : lexTemplate content = some segs) (hb : blockKw ∉ varNames segs) :
+    processT t q vars = processComponent t q vars := by
+  rw [processT_eq, compileP_wf t q hq, processComponent_wf t q vars hq]
+  unfold linkedEntry
+  simp only [hg, hl, linkContent_plain _ _ content segs hl hb, LinkRes.map, flatten_map_seg, execT]
+
+
+/-! ## the backend along a history -/
+
+theorem step_tree (s : Svc) (op : Op) : (step s op).1.tree = treeAfter s.tree [op] := by
+  cases op with
+  | proc q v => simp [step, treeAfter, procStep_tree]
+  | rproc q v =>
+    simp only [step, treeAfter]
+    cases resolve (yamlExists s.tree) q <;> simp [procStep_tree]
+  | get q => rfl
+  | inval => rfl
+  | put k c => rfl
+  | del k => rfl
+
+theorem treeAfter_cons (t : List Leaf) (op : Op) (ops : List Op) :
+    treeAfter t (op :: ops) = treeAfter (treeAfter t [op]) ops := by
+  cases op <;> rfl
+
+theorem after_tree (s : Svc) (ops : List Op) : (after s ops).tree = treeAfter s.tree ops := by
+  induction ops generalizing s with
+  | nil => rfl
+  | cons op r ih => rw [after, ih, step_tree, ← treeAfter_cons]
+
+theorem runFresh_append_singleton (t : List Leaf) (pre : List Op) (op : Op) :
+    runFresh t (pre ++ [op]) = runFresh t pre ++ [(step (freshSvc (treeAfter t pre)) op).2] := by
+  induction pre generalizing t with
+  | nil => simp [runFresh, treeAfter]
+  | cons o r ih =>
+    simp only [List.cons_append, runFresh, ih, step_tree, freshSvc]
+    rw [treeAfter_cons t o r]
+
+theorem after_append (s : Svc) (a b : List Op) : after s (a ++ b) = after (after s a) b := by
+  induction a generalizing s with
+  | nil => rfl
+  | cons o r ih => simp [after, ih]
+
 end Query
